@@ -73,8 +73,9 @@ def abstract_document(r, xml=False):
                     rec["args"][f] = name()
             if kind == "Membership" and r.random() < 0.5:
                 rec["members"] = [name() for _ in range(r.randint(2, 3))]
-                rec["id"] = None
-            else:
+                if xml:
+                    rec["id"] = None
+            if kind != "Membership" or "members" not in rec or not xml:
                 for _ in range(r.randint(0, 3)):
                     an = ["prov", r.choice(GENERIC)] if r.random() < 0.5 else name(ATTRS)
                     v = value()
